@@ -2,7 +2,7 @@
    Statements: Spec/C07_Shapes_Spec.v, Spec/C07_More_Spec.v, Spec/C07_Final_Spec.v, Spec/C07_FinalUnfixed_Spec.v,
    Spec/C07_TargetUnfixed_Spec.v; proofs: Proofs/C07_Shapes.v, C07_Raw.v, C07_Filters.v, C07_ChainFacts.v, C07_FiltersNum.v,
    C07_FiltersCursor.v, C07_FiltersTarget.v, C07_FinalHub.v, C07_Final.v, C07_FinalMem.v, C07_FinalCursor.v,
-   C07_FinalTarget.v, C07_FinalRefuted.v, C07_TargetRefuted.v. *)
+   C07_FinalTarget.v, C07_FinalRefuted.v, C07_TargetRefuted.v, C07_TargetOff.v. *)
 From BV Require Import Base.Prelude Model.Block Model.ForkDB Model.Forkable Model.ForkableLookups
   Model.Burst Model.Hub Model.CursorResolver Model.Joining
   Spec.Consumer Spec.Universe Check.Burst_Check Check.C07_Check Spec.C06_Spec Spec.C07_Spec Spec.C09_Spec Spec.C13_Spec
@@ -42,6 +42,24 @@ Print Assumptions c07_seamless_cursor_nu.
 Theorem c07_seamless_target_nu_partial : C07_seamless_target_nu.
 Proof. exact c07_seamless_target_nu_proof. Qed.
 Print Assumptions c07_seamless_target_nu_partial.
+
+(* target-cursor mode WITHOUT any agreement hypothesis between files, cursor and hub: FULL for a cursor minted on the chain
+   (its LIB is a canonical block at or below its block: cursor_lib_on).  Also covers the hub that stores the cursor block off
+   its current chain (the branch target_on_chain excluded): Proofs/C07_TargetOff.v *)
+Theorem c07_seamless_target_nu : C07_seamless_target_nu_full.
+Proof. exact c07_seamless_target_nu_full_proof. Qed.
+Print Assumptions c07_seamless_target_nu.
+
+(* ... default filter, no stop block (the form of c07_seamless_target_partial) *)
+Theorem c07_seamless_target : C07_seamless_target_full.
+Proof. exact c07_seamless_target_full_proof. Qed.
+Print Assumptions c07_seamless_target.
+
+(* the hypothesis on the cursor LIB cannot simply be dropped: a malformed cursor (LIB reference with a wrong number) breaks the
+   discipline in the model *)
+Theorem c07_target_cursor_lib_needed : C07_target_cursor_lib_needed.
+Proof. exact c07_target_cursor_lib_needed_proof. Qed.
+Print Assumptions c07_target_cursor_lib_needed.
 
 (* BEFORE that fix (stream_run_tnum, Spec/C07_TargetUnfixed_Spec.v) target-cursor mode joined the hub by block NUMBER when
    the cursor was below the file block: with every hypothesis of c07_seamless_target_nu_partial the hub on a fork at the
@@ -290,6 +308,45 @@ Proof.
   split; [apply eventual_tip_b_sound; vm_compute; reflexivity|].
   split; [reflexivity|]. split; [reflexivity|]. split; [reflexivity|]. split; [reflexivity|]. split; [reflexivity|].
   split; [vm_compute; reflexivity|]. split; reflexivity.
+Qed.
+
+(* target-cursor mode with the cursor block stored OFF the hub's chain: chain 2..20, the hub gets 6..14, then the fork
+   13 <- 114 <- 115 (head 115, the canonical 14 stored off the chain), then 15..20; target cursor {New 14, LIB 12}; the files hold
+   2..9.  target_on_chain fails; every hypothesis of c07_seamless_target holds.  The join at 8 is answered with the cursor's
+   own branch 8..14, then Undo 14, New 114, New 115; later the hub reorganises back *)
+Definition off_cu : cursor := mkCursor SNew (mkR 14 14) (mkR 14 14) (mkR 12 12).
+Definition off_c : jcfg := mkJ 2 5 10 2 5 (Some off_cu) 0 0 0.
+Example c07_target_off_chain_nonvacuous :
+  wf_b na_U = true /\ lib_ok_b LNone na_U = true /\ hub_of_universe na_U off_c off_w /\
+  chain_ok na_canon /\ incl na_canon na_U /\ eventual_tip off_c off_w na_canon /\
+  target_on_chain_b off_c off_w off_cu = false /\
+  j_mode off_c = 2 /\ j_cursor off_c = Some off_cu /\ j_filter off_c = 0 /\ j_stop off_c = 0 /\ 0 < j_bundle off_c /\
+  In (na_b 14) na_canon /\ bref (na_b 14) = cu_blk off_cu /\ cursor_lib_on na_canon off_cu (na_b 14) /\
+  (exists b, In b na_canon /\ bnum b = run_start off_c off_w) /\
+  cx_show (stream_run off_c off_w [(2, 11)] 10 (filter (fun b => bnum b <? 10) na_canon) [])
+  = ([(SNewIrr, 5); (SNewIrr, 6); (SNewIrr, 7); (SNewIrr, 8); (SNewIrr, 9); (SNewIrr, 10); (SNewIrr, 11); (SNewIrr, 12);
+      (SNew, 13); (SNew, 14); (SUndo, 14); (SNew, 114); (SNew, 115); (SUndo, 115); (SUndo, 114); (SNew, 14); (SNew, 15);
+      (SNew, 16); (SNew, 17); (SNew, 18); (SNew, 19); (SNew, 20)], JNil).
+Proof.
+  split; [vm_compute; reflexivity|]. split; [vm_compute; reflexivity|].
+  split.
+  { split.
+    - exists []. split; [intros b p []|reflexivity].
+    - intros b Hb. vm_compute in Hb. vm_compute. tauto. }
+  split.
+  { split.
+    - vm_compute. repeat split.
+    - apply (NoDup_map_inv (fun x => x)). rewrite map_id. vm_compute.
+      repeat (constructor; [cbn; intros K; repeat (destruct K as [K|K]; [discriminate|]); exact K|]). constructor. }
+  split; [intros b Hb; unfold na_U; apply in_or_app; left; exact Hb|].
+  split; [apply eventual_tip_b_sound; vm_compute; reflexivity|].
+  split; [vm_compute; reflexivity|].
+  split; [reflexivity|]. split; [reflexivity|]. split; [reflexivity|]. split; [reflexivity|]. split; [reflexivity|].
+  split; [vm_compute; tauto|]. split; [reflexivity|].
+  split.
+  { exists (na_b 12). split; [vm_compute; tauto|]. split; [reflexivity|]. split; [vm_compute; discriminate | intros H; discriminate]. }
+  split; [exists (na_b 5); split; [vm_compute; tauto | vm_compute; reflexivity]|].
+  vm_compute. reflexivity.
 Qed.
 
 (* final blocks only through a target cursor: the world of c07_join_by_number_refuted (the hub becomes ready on the fork
